@@ -284,26 +284,44 @@ def h_compress(H):
         S.explore(body)
 
 
-@harness(PROPERTY, "decompress_file", functions=["spikeglx:Reader.decompress_file", "spikeglx:Reader.close", "spikeglx:Reader.is_open"],
+@harness(PROPERTY, "decompress_file", functions=["spikeglx:Reader.decompress_file", "spikeglx:Reader.close", "spikeglx:Reader.is_open"], replay=lambda vals, oid: replay_decompress_elsewhere(vals, oid),
          clause="in-place decompression: compressed source (and its .ch) removed only after the binary is complete")
 def h_decompress(H):
-    for keep in (True, False):
-        S = H.session(f"decompress.keep{keep}")
+    for keep, elsewhere in ((True, False), (False, False), (False, True), (True, True)):
+        S = H.session(f"decompress.keep{keep}" + (".out_elsewhere" if elsewhere else ""))
 
-        def body(it, keep=keep):
+        def body(it, keep=keep, elsewhere=elsewhere):
             fs_, paths = mk_fs(it, symbolic_exists=(".bin",))
             fs_.exists[paths[".cbin"].key] = True
             fs_.exists[paths[".ch"].key] = True
             install_mtscomp(it, fs_)
             sr = mk_reader(paths, ".cbin")
             c0 = fs_.content[paths[".cbin"].key]
-            tag = f"keep{keep}"
-            try:
-                out = run_function(it, spikeglx.Reader.decompress_file, [sr], {"keep_original": keep})
-                failed = False
-            except PyRaise:
-                failed = True
+            tag = f"keep{keep}" + (".out_elsewhere" if elsewhere else "")
+            kw = {"keep_original": keep}
             cb, bn, ch = paths[".cbin"], paths[".bin"], paths[".ch"]
+            if elsewhere:
+                # documented option: the binary is asked for under another name in another folder, where a compressed copy of some recording (header included) may sit
+                bn = fsmodel.GhostPath(fs_, ("archive",), "copy.imec0.ap.bin")
+                kw["out"] = bn
+                others = {sfx: bn.with_suffix(sfx) for sfx in (".ch", ".cbin", ".meta")}
+                before = {}
+                for sfx, p_ in others.items():
+                    fs_.exists[p_.key] = SV(z3.Bool(fresh_name("other" + sfx.replace(".", "_"))))
+                    fs_.content[p_.key] = z3.Const(fresh_name("othercontent"), Bytes)
+                    before[sfx] = (ex_term(fs_, p_), fs_.content[p_.key])
+                fs_.exists[bn.key] = SV(z3.Bool(fresh_name("out_exists")))
+                fs_.content[bn.key] = z3.Const(fresh_name("outcontent"), Bytes)
+            try:
+                out = run_function(it, spikeglx.Reader.decompress_file, [sr], kw)
+                failed = False
+            except PyRaise as e_:
+                failed = True
+                if elsewhere and not isinstance(e_.exc, RuntimeError):
+                    it.ctx.oblige(f"decompress.no_unexpected_exception.{tag}", z3.BoolVal(False), "post", f"the only exception is a failure of mtscomp itself (got {type(e_.exc).__name__})")
+            if elsewhere:
+                it.ctx.oblige(f"decompress.nothing_else_touched.{tag}", z3.And(*[z3.And(ex_term(fs_, others[sfx]) == before[sfx][0], fs_.content[others[sfx].key] == before[sfx][1]) for sfx in others]), "post",
+                              "the in-place variant removes the compressed source and its own header, nothing else: files of another recording next to the output keep existing with their content")
             if not failed:
                 it.ctx.oblige(f"decompress.published.{tag}", z3.And(ex_term(fs_, bn), fs_.content[bn.key] == Df(c0), z3.BoolVal(out == bn)), "post")
                 if keep:
@@ -320,7 +338,7 @@ def h_decompress(H):
     H.lemma("roundtrip.lossless", [z3.ForAll([b], Df(Cf(b)) == b)], Df(Cf(z3.Const("orig", Bytes))) == z3.Const("orig", Bytes), "compress followed by decompress reproduces the binary (A-MTSCOMP)")
 
 
-@harness(PROPERTY, "decompress_to_scratch", functions=["spikeglx:Reader.decompress_to_scratch", "spikeglx:Reader.decompress_file"],
+@harness(PROPERTY, "decompress_to_scratch", functions=["spikeglx:Reader.decompress_to_scratch", "spikeglx:Reader.decompress_file"], replay=lambda vals, oid: replay_scratch_meta(vals, oid),
          clause="decompression to scratch: the final .bin name carries only a complete file, whatever an earlier failed attempt left behind; the source is untouched")
 def h_scratch(H):
     for with_dir in (False, True):
@@ -341,8 +359,8 @@ def h_scratch(H):
                 sd = None
                 target = paths[".bin"]
             tmp = target.with_suffix(".bin_temp")
-            for p in (target, tmp):
-                fs_.exists[p.key] = SV(z3.Bool(fresh_name("exists")))          # anything an earlier (failed) attempt may have left
+            for p in (target, tmp) + ((target.with_suffix(".meta"),) if with_dir else ()):
+                fs_.exists[p.key] = SV(z3.Bool(fresh_name("exists")))          # anything an earlier (failed) attempt - or a job on another recording of the same name - may have left
                 fs_.content[p.key] = z3.Const(fresh_name("leftover"), Bytes)
             # a file under the final name is complete (this is what the function must preserve): it holds the decompressed recording
             it.ctx.assume(z3.Implies(ex_term(fs_, target), fs_.content[target.key] == Df(c0)))
@@ -358,7 +376,8 @@ def h_scratch(H):
             if not failed:
                 it.ctx.oblige(f"scratch.returns_bin.{tag}", z3.And(z3.BoolVal(out == target), ex_term(fs_, target)), "post")
                 if with_dir:
-                    it.ctx.oblige(f"scratch.meta_copied.{tag}", ex_term(fs_, target.with_suffix(".meta")), "post")
+                    it.ctx.oblige(f"scratch.meta_copied.{tag}", z3.And(ex_term(fs_, target.with_suffix(".meta")), fs_.content[target.with_suffix(".meta").key] == fs_.content[paths[".meta"].key]), "post",
+                                  "transparent: the scratch copy opens as the same recording - the metadata next to it is this recording's, whatever was in the scratch folder before")
         S.explore(body)
 
 
@@ -391,6 +410,68 @@ def _mk_pair(d, ns, nc, rng, keep=("bin", "cbin"), chunk_s=0.05, smooth=False):
     if "bin" not in keep:
         os.unlink(b)
     return files
+
+
+def replay_decompress_elsewhere(vals, oid):
+    """native: in-place decompression into another folder that holds a compressed copy (same stem as the output) of another recording"""
+    rng = np.random.default_rng(9)
+    bad = []
+    d = tempfile.mkdtemp(prefix="c02_")
+    try:
+        a_dir, b_dir = os.path.join(d, "a"), os.path.join(d, "archive")
+        os.makedirs(a_dir)
+        os.makedirs(b_dir)
+        fa = _mk_pair(a_dir, 1501, 385, rng, keep=("cbin",))
+        fb = _mk_pair(b_dir, 1400, 385, rng, keep=("cbin",))
+        orig_a = fa["D"].tobytes()
+        ch_b = fb["cbin"][:-4] + "ch"
+        before = {f: open(f, "rb").read() for f in (fb["cbin"], ch_b, fb["meta"])}
+        out = pathlib.Path(fb["cbin"]).with_suffix(".bin")
+        sr = spikeglx.Reader(fa["cbin"], sort=False)
+        raised = None
+        try:
+            sr.decompress_file(keep_original=False, out=out)
+        except Exception as e:
+            raised = repr(e)[:120]
+        try:
+            sr.close()
+        except Exception:
+            pass
+        after_ok = all(os.path.exists(f) and open(f, "rb").read() == b_ for f, b_ in before.items())
+        src_gone = not os.path.exists(fa["cbin"]) and not os.path.exists(fa["cbin"][:-4] + "ch")
+        complete = os.path.exists(out) and open(out, "rb").read() == orig_a
+        if raised or not after_ok or not src_gone or not complete:
+            bad.append({"decompress_file(keep_original=False, out=<another folder>)": {"raised": raised, "files_of_the_other_recording_intact": after_ok, "source_and_its_header_removed": src_gone, "output_complete": complete}})
+    finally:
+        shutil.rmtree(d, ignore_errors=True)
+    return {"failed": bool(bad), "cases": bad}
+
+
+def replay_scratch_meta(vals, oid):
+    """native: a scratch folder shared by two recordings of the same file name: each scratch copy opens as its own recording"""
+    rng = np.random.default_rng(10)
+    bad = []
+    d = tempfile.mkdtemp(prefix="c02_")
+    try:
+        scratch = pathlib.Path(d) / "scratch"
+        for k_ in range(2):
+            sub = os.path.join(d, f"session{k_}")
+            os.makedirs(sub)
+            f = _mk_pair(sub, 1501 + 10 * k_, 385, rng, keep=("cbin",))
+            with open(f["meta"], "a") as g:
+                g.write(f"userNotes=session{k_}\n")
+            sr = spikeglx.Reader(f["cbin"], sort=False)
+            b = sr.decompress_to_scratch(scratch_dir=scratch)
+            sr.close()
+            b = b.file_bin if hasattr(b, "file_bin") else pathlib.Path(b)
+            same_meta = open(b.with_suffix(".meta")).read() == open(f["meta"]).read()
+            same_data = open(b, "rb").read() == f["D"].tobytes()
+            if not same_meta or not same_data:
+                bad.append({"recording": k_, "scratch_metadata_is_its_own": same_meta, "scratch_binary_is_its_own": same_data})
+            os.unlink(b)       # what a job does when it is done with the binary: the metadata stays behind
+    finally:
+        shutil.rmtree(d, ignore_errors=True)
+    return {"failed": bool(bad), "cases": bad}
 
 
 @bounded(PROPERTY, "native_transparent", bound="real mtscomp: ns in {chunk-1, chunk, chunk+1, 2*chunk+7} (chunk = 1500 samples) x nc=385 (thorough: also 17, 2): every slice start/stop within +-2 of each chunk boundary, "
